@@ -39,6 +39,9 @@ class Concrete(object):
         self.grid_names = GRID_NAMES[:len(cfg["grid"])]
         self.case_names = CASE_NAMES[:cfg["nca"]]
         self.grid_vals = {nm: values_for(nm, n, fl) for nm, n in zip(self.grid_names, cfg["grid"])}
+        if cfg.get("dup") and self.grid_names:
+            nm = self.grid_names[0]
+            self.grid_vals[nm] = list(range(1, cfg["grid"][0] + 1))
         self.case_vals = {nm: values_for(nm, 4, fl) for nm in self.case_names}
         self.fn_args = self.case_names + self.grid_names
         meta = cfg["meta"]
@@ -70,6 +73,12 @@ class Concrete(object):
     def combos(self):
         spelling = self.variant.get("spelling", "dict")
         items = [(nm, list(self.grid_vals[nm])) for nm in self.grid_names]
+        if self.cfg.get("dup") and items:
+            # two equal values for the first grid argument, spelled with the same or another type
+            nm, vals = items[0]
+            v0 = vals[0]
+            twin = {0: v0, 1: (float(v0) if isinstance(v0, int) else v0), 2: (True if v0 == 1 else v0)}[self.variant.get("dupkind", 0)]
+            items[0] = (nm, vals + [twin])
         if self.cfg["overlap"]:
             items.append((self.case_names[0], list(self.case_vals[self.case_names[0]][:2])))
         if not items:
@@ -86,6 +95,8 @@ class Concrete(object):
         out = []
         for c in self.cfg["cases"]:
             d = {nm: self.case_vals[nm][v - 1] for nm, v in zip(self.case_names, c)}
+            if as_dict and self.variant.get("case_key_order") and len(out) % 2 == 1:
+                d = dict(reversed(list(d.items())))       # same case, keys written in another order
             out.append(d if as_dict else tuple(d[nm] for nm in self.case_names))
         return out
 
@@ -97,7 +108,11 @@ class CallLog(object):
         self.calls = []
         self.bad_kwargs = []
 
+    decoy = False
+
     def __call__(self, **kw):
+        if self.decoy:
+            return make_result(1, self.kind)
         conc = self.conc
         extra = dict(kw)
         core = {}
@@ -397,8 +412,8 @@ def case_sets(nca, nvals, max_cases, ordered=True):
     return out
 
 
-def mk(grid, nca=0, cases=(), overlap=False, shuffle=False, pool=False, kind="nested", meta=None):
-    return dict(grid=list(grid), nca=nca, cases=[list(c) for c in cases], overlap=overlap,
+def mk(grid, nca=0, cases=(), overlap=False, shuffle=False, pool=False, kind="nested", meta=None, dup=False):
+    return dict(grid=list(grid), nca=nca, cases=[list(c) for c in cases], overlap=overlap, dup=dup,
                 shuffle=shuffle, pool=pool, kind=kind, meta=dict(meta or META0))
 
 
@@ -473,7 +488,7 @@ def replay_case(case, variant):
             executor = ApplyExec(case["hist"], id_of_call)
         else:
             executor = make_mppool(case["hist"], id_of_call)
-    shuffle = False
+    shuffle = variant.get("noshuffle", False)          # False or 0: both mean "do not shuffle"
     if cfg["shuffle"]:
         shuffle = variant.get("seed", True)
     opts = dict(shuffle=shuffle, verbosity=0)
@@ -510,8 +525,29 @@ def replay_case(case, variant):
                 dfn = _ds_fn(log, mode)
                 kwargs = dict(var_dims=var_dims, var_coords=var_coords, constants=consts or None,
                               resources=conc.resources or None, attrs=conc.attrs or None)
+                def decoy(r):
+                    # an earlier run on the same Runner with per-run constants must not change later runs
+                    if not variant.get("decoy") or not conc.grid_names or cfg["overlap"] or cfg.get("dup"):
+                        return
+                    log.decoy = True
+                    try:
+                        nm = conc.grid_names[0]
+                        over = {"kattr": 99, "zz": 5}
+                        if cfg["meta"]["cdim"]:
+                            over["t"] = [7.0, 8.0]
+                        sub = {g: conc.grid_vals[g][:1] for g in conc.grid_names}
+                        if cfg["nca"]:
+                            r.run_cases(conc.cases(as_dict=True)[:1], combos=xyz.gen.prepare.parse_combos(sub) or None,
+                                        constants=over, verbosity=0)
+                        else:
+                            r.run_combos(sub, constants=over, verbosity=0)
+                    except Exception as e:  # noqa
+                        drift.append("decoy run failed: %r" % (e,))
+                    finally:
+                        log.decoy = False
                 if entry == "runner":
                     r = xyz.Runner(dfn, var_names, fn_args=conc.fn_args, **kwargs)
+                    decoy(r)
                     if cfg["nca"] and not combos:
                         res = r.run_cases(cases, to_df=to_df, **opts) if to_df else r.run_cases(cases, **opts)
                     elif cfg["nca"]:
@@ -522,6 +558,7 @@ def replay_case(case, variant):
                         drift.append("Runner.last_ds is not the returned dataset")
                 elif entry == "label":
                     r = xyz.label(var_names, fn_args=conc.fn_args, **kwargs)(dfn)
+                    decoy(r)
                     if cfg["nca"]:
                         res = r.run_cases(cases, combos=combos and xyz.gen.prepare.parse_combos(combos), to_df=to_df, **opts)
                     else:
@@ -702,7 +739,8 @@ def variants_for(case, idx, prop, n_variants):
         k = idx * 7 + j * 3
         v = dict(values=VALUE_FLAVOURS[(k + j) % 4], spelling=SPELLINGS[(k // 2 + j) % 3],
                  exec=EXEC_STYLES[(k + j) % 3], seed=[True, 3, 11][(k + j) % 3],
-                 cases_as_dict=(k % 2 == 0))
+                 cases_as_dict=(k % 2 == 0), noshuffle=[False, 0][(k // 3) % 2], case_key_order=(k % 3 == 1),
+                 dupkind=k % 3, decoy=(k % 2 == 1))
         if cfg["kind"] in ("nested", "flat"):
             kinds = RESULT_KINDS_CASES if cfg["nca"] else RESULT_KINDS_GRID
             v["result"] = kinds[(k + j) % len(kinds)]
